@@ -90,13 +90,31 @@ fn esc_events(s: &str, encodable: bool, w: &mut impl Write) -> usize {
             Err(()) => put(panic_ev("e2e", inp.clone())),
         }
     }
-    if !s.contains('^') {
+    // the encoder on caret-free text, and on text whose carets are all part of ^^ or ^digit (sequences LFS keeps in the
+    // text, so that what LFS reads back is the text itself - with ^8 returning to Latin-1)
+    if carets_benign(s) {
         match guard(|| codepages::to_lossy_bytes(s).to_vec()) {
             Ok(b) => put(json!({"ev": "CpEnc", "in": inp, "out": b})),
             Err(()) => put(panic_ev("to_lossy_bytes", inp)),
         }
     }
     n
+}
+
+fn carets_benign(s: &str) -> bool {
+    let c: Vec<char> = s.chars().collect();
+    let mut i = 0;
+    while i < c.len() {
+        if c[i] == '^' {
+            if i + 1 < c.len() && (c[i + 1] == '^' || c[i + 1].is_ascii_digit()) {
+                i += 2;
+                continue;
+            }
+            return false;
+        }
+        i += 1;
+    }
+    true
 }
 
 fn dec_event(b: &[u8]) -> Value {
